@@ -2,6 +2,7 @@
    A row crosses the boundary as a list of 16 values in the order of the record
    fields of Model.Segfilters.seg (missing cell = VNone). *)
 From CNV Require Import Base.Prelude Base.Val Base.Str Model.Segfilters Spec.Segfilters.
+From CNV Require Model.Chromsort.
 
 Definition getOQ (v : val) : option (option Q) := getOpt getQ v.
 
@@ -63,6 +64,107 @@ Definition e_c14_enum (v : val) : val :=
 Definition e_c14_wmedian (v : val) : val :=
   match getPair (getList getOQ) (getList getQ) v with
   | Some (a, w) => vOptQ (wmedian_opt a w)
+  | None => bad_input
+  end.
+
+(* ---- do_call with the real calling step; exp2 / log2 oracles as finite tables ---- *)
+
+Definition getMeth (v : val) : option meth :=
+  match getS v with
+  | Some s => if String.eqb s "threshold" then Some Mthreshold
+              else if String.eqb s "clonal" then Some Mclonal
+              else if String.eqb s "none" then Some Mnone else None
+  | None => None
+  end.
+
+(* [method; ploidy; purity|None; hapx; female; build|None; thresholds; has_baf] *)
+Definition getCfg (v : val) : option callcfg :=
+  match v with
+  | VL [m; k; p; hx; fe; b; ts; hb] =>
+      match getMeth m, getZ k, getOpt getQ p, getB hx with
+      | Some m', Some k', Some p', Some hx' =>
+          match getB fe, getOpt getS b, getList getQ ts, getB hb with
+          | Some fe', Some b', Some ts', Some hb' => Some (mkCfg m' k' p' hx' fe' b' ts' hb')
+          | _, _, _, _ => None
+          end
+      | _, _, _, _ => None
+      end
+  | _ => None
+  end.
+
+Definition getQQ (v : val) : option (Q * Q) := getPair getQ getQ v.
+
+Fixpoint lookupQ (tbl : list (Q * Q)) (q : Q) : option Q :=
+  match tbl with
+  | [] => None
+  | (k, v) :: t => if Qeq_bool k q then Some v else lookupQ t q
+  end.
+Definition oracle_of (tbl : list (Q * Q)) (q : Q) : Q :=
+  match lookupQ tbl q with Some v => v | None => 0%Q end.
+Definition missing_keys (tbl : list (Q * Q)) (keys : list Q) : list Q :=
+  filter (fun q => match lookupQ tbl q with Some _ => false | None => true end) keys.
+
+(* (cfg, filter names, table, exp2 table, log2 table) ->
+     ["need"; exp2 arguments still missing; log2 arguments still missing]   or
+     ["ok"; do_call's result | None (AssertionError); per row of the called table: [absolute|None; log2 seen by the thresholds]]
+   the harness answers a "need" with the libm values and asks again *)
+Definition e_c14_do_call (v : val) : val :=
+  match v with
+  | VL [c; fs; t; e2; l2] =>
+      match getCfg c, getList getFilt fs, getTable t, getList getQQ e2, getList getQQ l2 with
+      | Some cfg, Some fs', Some t', Some e2', Some l2' =>
+          let ex := oracle_of e2' in
+          let lg := oracle_of l2' in
+          let t1 := fst (pre_steps pre_filters t' fs') in
+          let first := first_of t1 in
+          let need1 := missing_keys e2' (map log2 t1) in
+          match need1 with
+          | _ :: _ => VL [VS "need"; vListQ need1; VL []]
+          | [] =>
+              let ratios := filter_some (map (purity_ratio ex cfg first) t1) in
+              let need2 := missing_keys l2' ratios in
+              match need2 with
+              | _ :: _ => VL [VS "need"; VL []; vListQ need2]
+              | [] =>
+                  let need3 := missing_keys e2' (map (fun s => log2 (rescale_row ex lg cfg first s)) t1) in
+                  match need3 with
+                  | _ :: _ => VL [VS "need"; vListQ need3; VL []]
+                  | [] =>
+                      VL [VS "ok";
+                          match do_call_model ex lg cfg fs' t' with Some r => vTable r | None => VNone end;
+                          VL (map (fun d => VL [vOptQ (fst d); VQ (Qred (snd d))]) (call_diag ex lg cfg t1))]
+                  end
+              end
+          end
+      | _, _, _, _, _ => bad_input
+      end
+  | _ => bad_input
+  end.
+
+(* the specification functions of Spec/Segfilters.v on one run:
+   [weighted; run_mean log2; run_mean_opt depth; run_mean_opt baf; joined_genes; run_max p_bintest] *)
+Definition e_c14_spec_fields (v : val) : val :=
+  match getTable v with
+  | Some r =>
+      VL [VB (weighted r); VQ (Qred (run_mean log2 r)); vOptQ (run_mean_opt depth r);
+          vOptQ (run_mean_opt baf r); VS (joined_genes r); vOptQ (run_max (map pbt r))]
+  | None => bad_input
+  end.
+
+(* GenomicArray.sort on the (chromosome, start, end) of the rows, and whether
+   the chromosome names of the table have pairwise distinct sort keys *)
+Definition e_c14_sort (v : val) : val :=
+  match getTable v with
+  | Some t =>
+      let names := uniq_str (map chrom t) in
+      let keys := map Chromsort.chrom_key names in
+      let fix distinct (l : list (Z * string)) : bool :=
+        match l with
+        | [] => true
+        | k :: r => negb (existsb (fun k' => (fst k =? fst k') && String.eqb (snd k) (snd k')) r) && distinct r
+        end in
+      VL [VL (map (fun s => VL [VS (chrom s); VZ (lo s); VZ (hi s)]) (Chromsort.sort_regions_fast seg_region t));
+          VB (distinct keys)]
   | None => bad_input
   end.
 
